@@ -322,6 +322,12 @@ func NewExplorer(cfg Config) (*Explorer, error) {
 				cur.cut()
 			}
 			return lime.MemberAuthenticationResult(), nil
+		case "unknown+cut":
+			// the peer vanishes while the authenticator is about to refuse it: the failed session cannot be sent
+			if cur != nil && cur.cut != nil {
+				cur.cut()
+			}
+			return lime.UnknownAuthenticationResult(), nil
 		case "authority":
 			return lime.AuthorityAuthenticationResult(), nil
 		case "unknown":
